@@ -291,6 +291,53 @@ pub fn run(tier: Tier, seed: u64) -> i32 {
         }
     });
 
+    // ---- muxing twice over the configuration space: brand lists (with repeats), every kind, languages, every AAC
+    // object type, two-track movies; two small histories each
+    let cfgs = config_grid();
+    let ncfg = cfgs.len();
+    let cfg_local = cfgs
+        .par_iter()
+        .fold(Local::default, |mut l, m| {
+            let hs = grid_histories(m);
+            for h in hs {
+                l.evaluations += 1;
+                l.validated += 1;
+                l.nontrivial += 1;
+                l.transitions += 2 * (3 + h.len() as u64);
+                let a = mux(seed, m, &h);
+                let b = mux(seed, m, &h);
+                match (a, b) {
+                    (Ok(a), Ok(b)) if a.bytes == b.bytes && a.calls == b.calls => l.outcome("mux_twice_config:identical"),
+                    (Err(a), Err(b)) if a == b => l.outcome("mux_twice_config:same_failure"),
+                    _ => {
+                        l.outcome("mux_twice_config:DIFFERENT");
+                        l.violations.push(Violation::new("C15", "muxing_same_history_twice_differs", json!({"engine": "mux_twice_config", "config": m.to_json(), "history": hist_json(&h), "seed": seed})));
+                    }
+                }
+            }
+            l
+        })
+        .reduce(Local::default, |mut a, b| {
+            a.evaluations += b.evaluations;
+            a.validated += b.validated;
+            a.nontrivial += b.nontrivial;
+            a.transitions += b.transitions;
+            for (k, v) in b.outcomes {
+                *a.outcomes.entry(k).or_insert(0) += v;
+            }
+            a.violations.merge(b.violations);
+            a
+        });
+    l.evaluations += cfg_local.evaluations;
+    l.validated += cfg_local.validated;
+    l.nontrivial += cfg_local.nontrivial;
+    trans += cfg_local.transitions;
+    for (k, v) in cfg_local.outcomes {
+        *l.outcomes.entry(k).or_insert(0) += v;
+    }
+    l.violations.merge(cfg_local.violations);
+    ev.set("mux_twice_configurations", json!({"configs": ncfg, "what": "mux::config_grid: all brand lists of length <= 4 over 4 values (with repeats), 5 kinds x 5 languages, 25 two-track kind pairs, 42 AAC object types x 4 frequency indices x 3 channel configurations, 25 parameter-set length pairs; 2-3 histories each"}));
+
     let mut outcomes = l.outcomes.clone();
     for (k, v) in s.total.outcomes.iter() {
         *outcomes.entry(k.clone()).or_insert(0) += v;
